@@ -827,13 +827,7 @@ def r7_process_returns_to_table(ctx):
 
 
 def run(ctx):
-    audit(ctx)
-    r2_heap_arrays(ctx)
-    r3_reclaim_at_step_boundary(ctx)
-    r4_oracle_covers_roots(ctx)
-    r5_walkers(ctx)
-    r6_copy_on_transfer(ctx)
-    r7_process_returns_to_table(ctx)
+    ctx.run_rules([audit, r2_heap_arrays, r3_reclaim_at_step_boundary, r4_oracle_covers_roots, r5_walkers, r6_copy_on_transfer, r7_process_returns_to_table])
     ctx.note("error (Err-returning) paths are exempt from release obligations: they correspond to VM-level failures (stack underflow, missing process) that C01/C07 rule out")
     return (
         "Decides the accounting DISCIPLINE, not byte contents: every mutation of a GC root in the workspace is paired with retain/release "
